@@ -231,8 +231,10 @@ add("C16",
     "Hypothesis RuleBasedStateMachine over pools of values; invariant oracle = "
     "recursive snapshot (slots, str, hash) of every value ever seen",
     "Histories of up to 40-50 steps construct TimePoint (full, 24:00, decimal,"
-    " truncated), Duration, TimeZone and TimeRecurrence values and apply ~37 "
-    "families of public operations to operands drawn from the pools (results "
+    " truncated), Duration, TimeZone and TimeRecurrence values and apply ~40 "
+    "families of public operations (incl. augmented assignment and building "
+    "recurrences from pooled points and durations) to operands drawn from the "
+    "pools (results "
     "and linked sub-objects re-enter the pools); after every step every value "
     "ever seen is re-snapshotted and must be unchanged. Exploration only.",
     "any exception from an operation is 'no result'; long-running operations "
